@@ -761,8 +761,10 @@ class Exec:
     def resolve_global(self, fr, name):
         if name in fr.imports:
             return self._import_value(fr.imports[name])
-        # enclosing function's local imports (nested defs)
         mod = fr.module
+        if mod is None:
+            b = self.registry.models.builtin(name)
+            return b if b is not None else _MISSING
         if name in mod.functions:
             return FuncRef(mod.functions[name])
         if name in mod.classes:
